@@ -105,14 +105,26 @@ func futureReaders(t *testing.T, n int, entry string, dur time.Duration, failing
 // stressCancelAttribution: real time. Cancel() races with a zero-delay retry loop; every execution that ends
 // cancelled must report ErrExecutionCanceled (finding F3: context.Canceled slipped through).
 func stressCancelAttribution(trials int) (bad int) {
-	rp := retrypolicy.Builder[int]().WithMaxRetries(-1).Build()
+	// unlimited retries: only the cancellation ends the execution.  Should Cancel() ever fail to, a kill switch (an abort
+	// condition) ends the trial after two seconds, and the loop stops after three such trials
+	var kill atomic.Bool
+	rp := retrypolicy.Builder[int]().WithMaxRetries(-1).AbortIf(func(int, error) bool { return kill.Load() }).Build()
 	var sink atomic.Int64
-	for i := 0; i < trials; i++ {
+	stuck := 0
+	for i := 0; i < trials && stuck < 3; i++ {
 		ar := failsafe.NewExecutor[int](rp).WithContext(context.Background()).GetAsync(func() (int, error) { return 0, errors.New("fail") })
 		for j := 0; j < (i%97)*25; j++ { // vary the instant of the cancellation relative to the retry loop
 			sink.Add(1)
 		}
 		ar.Cancel()
+		select {
+		case <-ar.Done():
+		case <-time.After(2 * time.Second):
+			stuck++
+			kill.Store(true)
+			<-ar.Done()
+			kill.Store(false)
+		}
 		_, err := ar.Get()
 		if !errors.Is(err, failsafe.ErrExecutionCanceled) {
 			bad++
